@@ -29,7 +29,7 @@ UNDECIDED = "equality of vocabulary and behaviour after re-parsing; numeric prec
 FIELD_TABLE = [
     ("DomainExporter.extract_domain", "domain", "Domain", {"name", "requirements", "types", "constants", "predicates", "functions", "actions"}, {}),
     ("DomainExporter.write_action", "action", "Action", {"name", "signature", "preconditions", "discrete_effects", "numeric_effects", "conditional_effects", "universal_effects"}, {}),
-    ("Precondition._print_self", "self", "Precondition", {"binary_operator", "operands", "equality_preconditions", "inequality_preconditions"}, {}),
+    ("Precondition.print", "self", "Precondition", {"binary_operator", "operands", "equality_preconditions", "inequality_preconditions"}, {}),
     ("UniversalPrecondition.__str__", "self", "UniversalPrecondition", {"binary_operator", "operands", "equality_preconditions", "inequality_preconditions", "quantified_parameter", "quantified_type"}, {}),
     ("ConditionalEffect.__str__", "self", "ConditionalEffect", {"antecedents", "discrete_effects", "numeric_effects"}, {}),
     ("UniversalEffect.__str__", "self", "UniversalEffect", {"quantified_parameter", "quantified_type", "conditional_effects"}, {}),
@@ -48,7 +48,7 @@ CONTROL_OK = {"is_positive", "is_init"}
 def rule_fields(repo: Repo, rid: str, table) -> RuleResult:
     r = RuleResult(rid, "each printer's result depends on every declared field of what it prints", "the exported text carries the whole object")
     for spec, root, cls, required, excluded in table:
-        f = repo.func(spec)
+        f = L.fn(repo, spec)
         rootname = f.self_name if root == "self" else root
         got = F.slice_fields(repo, f, rootname, cls, control=False) | (F.slice_fields(repo, f, rootname, cls) & CONTROL_OK)
         r.site(f.qn)
@@ -64,125 +64,123 @@ def rule_fields(repo: Repo, rid: str, table) -> RuleResult:
     return r
 
 
+PRINT = "Precondition.print"          # public entry of the condition printer (its private helpers are analysed in place)
+
+
+def _fn_literals(repo: Repo, f: FuncInfo) -> List[str]:
+    """string literals that take part in the text a writer builds, including those kept in module constants"""
+    lits = list(T.function_literals(f))
+    for n in ast.walk(f.node):
+        if isinstance(n, ast.Name) and isinstance(n.ctx, ast.Load):
+            ok, v = repo.const_value(f.mod.name, n.id)
+            if ok and isinstance(v, str):
+                lits.append(v)
+    return lits
+
+
 def rule_operand_kinds(repo: Repo) -> RuleResult:
-    r = RuleResult("C08.operands", "Precondition._print_self prints operands of all three kinds (literal, numeric, nested) and all of them reach the text",
+    from .c02 import ClassDispatch
+    r = RuleResult("C08.operands", "the condition printer prints operands of all three kinds (literal, numeric, nested) and all of them reach the text",
                    "each action's precondition denotes the same formula as the original")
-    f = repo.func("Precondition._print_self")
+    f = L.fn(repo, PRINT)
     p = L.prov(repo, f)
     loops = [n for n in ast.walk(f.node) if isinstance(n, ast.For) and any(x == ("self", "attr:operands") for x in p.trace(n.iter))]
-    if not loops:
-        raise AnalysisError("_print_self: loop over self.operands not found")
-    from .c02 import isinstance_arms
-    arms, else_arm = isinstance_arms(loops[0].body, loops[0].target.id)
-    kinds = {c for a in arms for c in a.classes}
-    rets = L.func_returns(f)
-    ret_names = set()
-    for rt in rets:
-        for x in p.trace(rt.value):
-            pass
+    comps = [n for n in ast.walk(f.node) if isinstance(n, (ast.ListComp, ast.SetComp, ast.GeneratorExp))
+             and any(x == ("self", "attr:operands") for x in p.trace(n.generators[0].iter))]
+    if not loops and not comps:
+        raise AnalysisError(f"{PRINT}: no loop / comprehension over self.operands found")
+    rets = [x for x in L.func_returns(f) if x.value is not None]
+    elem = ("self", "attr:operands", "elem")
     for cls in ("Predicate", "NumericalExpressionTree", "Precondition"):
         r.site(f"{f.qn} [{cls}]")
-        arm = next((a for a in arms if cls in a.classes), None)
-        if arm is None:
-            r.fail(Finding("C08.operands", f, f"operand-kind:{cls}", f"operands of class {cls} are not printed"))
-            continue
-        # the list the arm appends to must flow into the returned text
-        apps = [c for s in arm.body for c in L.calls_in(s) if isinstance(c.func, ast.Attribute) and c.func.attr == "append" and isinstance(c.func.value, ast.Name)]
-        flows = False
-        for a in apps:
-            lst = a.func.value.id
+        reaches = False
+        handled = False
+        mro = repo.mro(cls)
+        for lp in loops:
+            D = ClassDispatch(repo, f, p, lp)
+            if not D.tests:
+                continue
+            if D.matches_any(cls):
+                handled = True
+            under = D.under(cls)
             for rt in rets:
-                # def-use: the content appended to this list reaches the returned text (flow-sensitive in the list variable)
-                if any(any(st == f"in:append@{lst}" for st in x) for x in p.trace(rt.value)) or \
-                        any(_name_flows_to_return(f, tgt) for tgt in _lists_fed_by(f, p, lst, rt)):
-                    flows = True
-        if flows:
-            r.ok({"class": cls, "collected_in": sorted({a.func.value.id for a in apps})})
+                tr = p.trace(rt.value, under=under)
+                # content that this iteration puts into lists / strings which the returned text is built from
+                if any(x[:3] == elem and any(st.startswith("in:") for st in x[3:]) or x[:3] == elem and len(x) > 3 for x in tr):
+                    # the flow must pass a statement executed for this class
+                    seen = D.reach(cls)
+                    adders = [n for n in seen if isinstance(D.g.stmt[n], (ast.Expr, ast.Assign, ast.AugAssign)) and
+                              any(y[:3] == elem for sub in ast.walk(D.g.stmt[n]) if isinstance(sub, ast.Name) and isinstance(sub.ctx, ast.Load)
+                                  for y in _safe(p, sub))]
+                    if adders:
+                        reaches = True
+        for c in comps:
+            conds = [t for g_ in c.generators for t in g_.ifs]
+            klasses = []
+            for t in conds:
+                for sub in ast.walk(t):
+                    if isinstance(sub, ast.Call) and isinstance(sub.func, ast.Name) and sub.func.id == "isinstance" and len(sub.args) == 2:
+                        from .c02 import _classes_of
+                        klasses += _classes_of(repo, f, sub.args[1]) or []
+            if any(k in mro for k in klasses):
+                handled = True
+                if any(any(st == "in:elt" for st in x) or True for rt in rets for x in p.trace(rt.value) if x[:3] == elem):
+                    reaches = True
+        if not handled:
+            r.fail(Finding("C08.operands", f, f"operand-kind:{cls}", f"operands of class {cls} are not printed"))
+        elif reaches:
+            r.ok({"class": cls, "reaches_text": True})
         else:
             r.fail(Finding("C08.operands", f, f"operand-kind-dropped:{cls}", f"operands of class {cls} are collected but never reach the returned text"))
     r.require_sites(3)
     return r
 
 
-def _lists_fed_by(f: FuncInfo, p, lst: str, rt) -> List[str]:
-    """names of local lists that are built from `lst` (e.g. by a helper call) and whose content reaches the return"""
-    out = []
-    tr = p.trace(rt.value)
-    for n in ast.walk(f.node):
-        if isinstance(n, ast.Assign) and len(n.targets) == 1 and isinstance(n.targets[0], ast.Name):
-            if any(isinstance(x, ast.Name) and x.id == lst for x in ast.walk(n.value)):
-                tgt = n.targets[0].id
-                if any(any(st.endswith(f"@{tgt}") for st in x) for x in tr) or _reaches_return_flow_sensitive(f, p, n, rt):
-                    out.append(tgt)
-    return []
-
-
-def _reaches_return_flow_sensitive(f: FuncInfo, p, assign: ast.Assign, rt) -> bool:
-    return False
-
-
-def _name_flows_to_return(f: FuncInfo, name: str) -> bool:
-    from ..core import names_in
-    rel: Set[str] = set()
-    for rt in L.func_returns(f):
-        if rt.value is not None:
-            rel |= names_in(rt.value)
-    changed = True
-    while changed:
-        changed = False
-        for n in ast.walk(f.node):
-            if isinstance(n, ast.Assign):
-                tg = set()
-                for t in n.targets:
-                    tg |= names_in(t)
-                if tg & rel:
-                    new = names_in(n.value) - rel
-                    if new:
-                        rel |= new
-                        changed = True
-    return name in rel
+def _safe(p, e):
+    try:
+        return p.trace(e)
+    except KeyError:
+        return set()
 
 
 def rule_polarity(repo: Repo, rid: str = "C08.polarity") -> RuleResult:
+    from .. import strshape as S
     r = RuleResult(rid, "negative literal text = '(not ' + positive literal text + ')'", "a literal is printed with its polarity")
     for spec in ("Predicate.untyped_representation", "GroundedPredicate.untyped_representation", "GroundedPredicate.__str__"):
-        f = repo.func(spec)
+        f = L.fn(repo, spec)
         g = C.cfg_of(f.node)
-        G = L.Guards(f, lambda e: "pos" if isinstance(e, ast.Attribute) and e.attr == "is_positive" else None)
+        p = L.prov(repo, f)
+        G = L.Guards(f, lambda e: "pos" if isinstance(e, ast.Attribute) and e.attr == "is_positive" and isinstance(e.ctx, ast.Load) else None)
         r.site(f.qn)
         if "pos" not in G.atoms_seen:
             r.fail(Finding(rid, f, "polarity-ignored", f"{spec} does not look at is_positive"))
             continue
-        tmpl = {}
+        ev = S.Evaluator(repo, f)
+
+        def hole(n):
+            tr = _safe(p, n)
+            return "/".join(sorted("|".join(x) for x in tr))[:200] if tr else unparse(n, 40)
+
+        text = {}
         for pos in (True, False):
             seen = G.reach({"pos": pos})
-            rs = [g.stmt[n] for n in seen if g.kind[n] == "return"]
-            if len(rs) != 1:
-                tmpl[pos] = None
-                continue
-            parts = T.flatten_template(rs[0].value)
-            tmpl[pos] = T.merge_literals(parts) if parts is not None else None
-        if tmpl[True] is None or tmpl[False] is None:
-            raise AnalysisError(f"{spec}: return templates are not reducible (f-string / concatenation expected)")
-
-        def norm(parts):
-            return [x if isinstance(x, str) else "{" + ast.unparse(x) + "}" for x in parts]
-
-        pos_t, neg_t = norm(tmpl[True]), norm(tmpl[False])
-        want = list(pos_t)
-        want[0] = "(not " + want[0] if isinstance(tmpl[True][0], str) else want[0]
-        if isinstance(tmpl[True][0], str):
-            if isinstance(tmpl[True][-1], str):
-                want[-1] = want[-1] + ")"
-            else:
-                want.append(")")
-            ok = neg_t == want
-        else:
-            ok = neg_t == ["(not "] + pos_t + [")"]
+            val = G._val({"pos": pos}, seen)
+            rs = [g.stmt[n] for n in seen if g.kind[n] == "return" and g.stmt[n].value is not None]
+            texts = set()
+            for rt in rs:
+                sh = ev.string(rt.value)
+                if S.unknowns(sh):
+                    raise AnalysisError(f"{spec}: the returned text is not interpreted ({S.unknowns(sh)[:1]})")
+                texts.add(S.render(sh, hole, val))
+            text[pos] = texts.pop() if len(texts) == 1 else None
+        if text[True] is None or text[False] is None:
+            raise AnalysisError(f"{spec}: the text for a positive / a negative literal is not a single template")
+        ok = text[False] == "(not " + text[True] + ")"
+        short = lambda t: t if len(t) < 120 else t[:117] + "..."
         if ok:
-            r.ok({"printer": f.qn, "positive": "".join(pos_t), "negative": "".join(neg_t)})
+            r.ok({"printer": f.qn, "positive": short(text[True]), "negative": "(not <positive>)"})
         else:
-            r.fail(Finding(rid, f, "negative-template", f"negative text {''.join(neg_t)!r} is not '(not ' + {''.join(pos_t)!r} + ')'"))
+            r.fail(Finding(rid, f, "negative-template", f"negative text {short(text[False])!r} is not '(not ' + {short(text[True])!r} + ')'"))
     r.require_sites(3)
     return r
 
@@ -190,7 +188,7 @@ def rule_polarity(repo: Repo, rid: str = "C08.polarity") -> RuleResult:
 def parser_heads(repo: Repo, specs: List[str]) -> Set[str]:
     heads: Set[str] = set()
     for spec in specs:
-        f = repo.func(spec)
+        f = L.fn(repo, spec)
         for n in ast.walk(f.node):
             if isinstance(n, ast.Compare) and len(n.ops) == 1:
                 c = n.comparators[0]
@@ -208,15 +206,15 @@ def parser_heads(repo: Repo, specs: List[str]) -> Set[str]:
 def rule_keywords(repo: Repo) -> RuleResult:
     r = RuleResult("C08.keywords", "every keyword the domain writer emits is a head the domain reader dispatches on", "the exported text is read back by the library's own parser")
     writers = ["DomainExporter.extract_domain", "DomainExporter.write_action", "Action.effects_to_pddl", "ConditionalEffect.__str__",
-               "UniversalEffect.__str__", "UniversalPrecondition.__str__", "Precondition._print_self", "Predicate.untyped_representation"]
+               "UniversalEffect.__str__", "UniversalPrecondition.__str__", PRINT, "Predicate.untyped_representation"]
     readers = ["DomainParser.parse_domain", "DomainParser.parse_action", "DomainParser.parse_preconditions", "PreconditionsParser.parse",
-               "EffectsParser.parse", "EffectsParser._parse_result", "EffectsParser._construct_conditional_effects", "EffectsParser.parse_conditional_effect"]
+               "EffectsParser.parse", "EffectsParser.parse_conditional_effect"]
     heads = parser_heads(repo, readers)
     # keywords matched structurally rather than by a head test
     heads |= {"define"}
     for w in writers:
-        f = repo.func(w)
-        kw = T.keywords(T.function_literals(f)) - {"<", ">", "<=", ">="}
+        f = L.fn(repo, w)
+        kw = T.keywords(_fn_literals(repo, f)) - {"<", ">", "<=", ">="}
         r.site(f.qn)
         unknown = sorted(k for k in kw if k not in heads)
         if unknown:
@@ -229,33 +227,43 @@ def rule_keywords(repo: Repo) -> RuleResult:
 
 
 BALANCE_SITES = ["DomainExporter.extract_domain", "DomainExporter.write_action", "Action.effects_to_pddl", "ConditionalEffect.__str__",
-                 "UniversalEffect.__str__", "UniversalPrecondition.__str__", "Precondition._print_self", "Predicate.untyped_representation",
+                 "UniversalEffect.__str__", "UniversalPrecondition.__str__", PRINT, "Predicate.untyped_representation",
                  "Predicate.__str__", "PDDLFunction.__str__", "PDDLFunction.untyped_representation", "Action.__str__"]
 
 
 def rule_balance(repo: Repo, rid: str, sites: List[str]) -> RuleResult:
+    from .. import strshape as S
     r = RuleResult(rid, "the literal parts of every writer template contain as many '(' as ')'", "the text has balanced parentheses, so it can be read back at all")
     for spec in sites:
-        f = repo.func(spec)
-        g = C.cfg_of(f.node)
+        f = L.fn(repo, spec)
         r.site(f.qn)
-        # per return path for functions with several returns; whole function otherwise
-        rets = L.func_returns(f)
+        # per alternative of every returned text; whole function when the construction is not interpreted
+        rets = [x for x in L.func_returns(f) if x.value is not None]
         units: List[Tuple[str, List[str]]] = []
-        if len(rets) > 1 and all(T.flatten_template(x.value) is not None for x in rets):
-            for x in rets:
-                units.append((f"return@{x.lineno}", [p for p in T.flatten_template(x.value) if isinstance(p, str)]))
-        else:
-            units.append(("function", T.function_literals(f)))
+        ev = S.Evaluator(repo, f)
+        interpretable = bool(rets)
+        for x in rets:
+            try:
+                sh = ev.string(x.value)
+            except Exception:
+                interpretable = False
+                break
+            if S.unknowns(sh):
+                interpretable = False
+                break
+            for i, b_ in enumerate(S.branches(sh)):
+                units.append((f"return@{x.lineno}#{i}", S.literals(b_)))
+        if not interpretable:
+            units = [("function", _fn_literals(repo, f))]
         bad = []
         for name, lits in units:
             o, c = T.paren_balance(lits)
             if o != c:
                 bad.append((name, o, c))
         if bad:
-            r.fail(Finding(rid, f, "unbalanced-template", f"template literals of {spec} are unbalanced: {bad}"))
+            r.fail(Finding(rid, f, "unbalanced-template", f"template literals of {spec} are unbalanced: {bad[:3]}"))
         else:
-            r.ok({"writer": f.qn, "units": [(n, T.paren_balance(l)) for n, l in units]})
+            r.ok({"writer": f.qn, "units": len(units)})
     r.require_sites(len(sites))
     return r
 
@@ -265,7 +273,7 @@ def rule_order(repo: Repo) -> RuleResult:
     bad_steps = ("arg0:sorted", "arg0:reversed", "arg0:set", "arg0:frozenset", "call:sort")
     for spec in ("DomainExporter.write_action", "Predicate.untyped_representation", "Predicate.__str__", "PDDLFunction.__str__",
                  "PDDLFunction.untyped_representation", "Action.__str__"):
-        f = repo.func(spec)
+        f = L.fn(repo, spec)
         p = L.prov(repo, f)
         r.site(f.qn)
         offenders = []
@@ -288,10 +296,10 @@ def rule_order(repo: Repo) -> RuleResult:
 
 def rule_options(repo: Repo) -> RuleResult:
     r = RuleResult("C08.options", "print options (should_simplify, decimal_digits) are passed on at every nested print", "the exporter asks for unsimplified text; nested conditions must honour it")
-    f = repo.func("Precondition._print_self")
+    f = L.fn(repo, PRINT)
     opts = [x for x in f.params if x in ("should_simplify", "decimal_digits")]
     if len(opts) != 2:
-        raise AnalysisError("_print_self: print options not found")
+        raise AnalysisError(f"{PRINT}: print options not found")
     p = L.prov(repo, f)
     for c in L.calls_in(f.node):
         if isinstance(c.func, ast.Name) and c.func.id == "str" and c.args:
@@ -303,25 +311,38 @@ def rule_options(repo: Repo) -> RuleResult:
                                f"(should_simplify=True, decimal_digits=2) instead of the ones requested", node=c))
         if callee_name(c) in ("print", "_print_self") and isinstance(c.func, ast.Attribute):
             r.site(L.site(f, c, "nested print"))
-            passed = {k.arg for k in c.keywords} | set(x.id for x in c.args if isinstance(x, ast.Name))
+            passed = {o for o in opts for a_ in list(c.args) + [k.value for k in c.keywords] if L.is_param(p, a_, o)}
             if set(opts) <= passed:
                 r.ok({"call": unparse(c), "options_passed": True})
             else:
                 r.fail(Finding("C08.options", f, f"call:{callee_name(c)}-without-options", f"{unparse(c)} drops the print options", node=c))
         if callee_name(c) == "to_pddl" and isinstance(c.func, ast.Attribute):
             r.site(L.site(f, c, "numeric print"))
-            if c.args or c.keywords:
+            if any(L.is_param(p, a_, "decimal_digits") for a_ in list(c.args) + [k.value for k in c.keywords]):
                 r.ok({"call": unparse(c), "decimal_digits": True})
             else:
                 r.fail(Finding("C08.options", f, "call:to_pddl-without-digits", f"{unparse(c)} ignores decimal_digits", node=c))
-    for spec, attr in (("ConditionalEffect.__str__", "antecedents"), ("UniversalPrecondition.__str__", None)):
+    # printers without option parameters that print a nested condition: the options cannot reach it
+    for spec, attr, role in (("ConditionalEffect.__str__", "antecedents", "call:str(self.antecedents)"),
+                             ("UniversalPrecondition.__str__", None, "call:super()._print_self()")):
         g = repo.func(spec)
+        pg = L.prov(repo, g)
         for c in L.calls_in(g.node):
-            if (isinstance(c.func, ast.Name) and c.func.id == "str" and c.args and attr and attr in ast.unparse(c.args[0])) or \
-                    (callee_name(c) == "_print_self" and not c.args and not c.keywords):
+            nested = False
+            if isinstance(c.func, ast.Name) and c.func.id == "str" and c.args and attr and any(x == ("self", f"attr:{attr}") for x in _safe(pg, c.args[0])):
+                nested = True
+            if isinstance(c.func, ast.Attribute) and isinstance(c.func.value, ast.Call) and callee_name(c.func.value) == "super" and not c.args and not c.keywords \
+                    and callee_name(c) in ("_print_self", "print", "__str__"):
+                nested = True
+            if nested:
                 r.site(L.site(g, c, "nested print"))
-                r.fail(Finding("C08.options", g, f"call:{unparse(c, 40)}", f"{unparse(c)} prints with the default options (simplified, 2 digits): "
+                r.fail(Finding("C08.options", g, role, f"{unparse(c)} prints with the default options (simplified, 2 digits): "
                                f"the domain exporter's should_simplify=False does not reach it", node=c))
+        for v in [n for n in ast.walk(g.node) if isinstance(n, ast.FormattedValue)]:
+            if attr and any(x == ("self", f"attr:{attr}") for x in _safe(pg, v.value)) and not isinstance(v.value, ast.Call):
+                r.site(L.site(g, v, "nested print"))
+                r.fail(Finding("C08.options", g, role, f"{{{unparse(v.value)}}} prints with the default options (simplified, 2 digits): "
+                               f"the domain exporter's should_simplify=False does not reach it", node=v))
     r.require_sites(2)
     return r
 
@@ -337,45 +358,36 @@ TYPED_LIST_SITES = ["DomainExporter.write_action", "Predicate.__str__", "PDDLFun
 
 
 def rule_typedparams(repo: Repo, rid: str = "C08.typedparams", sites: Optional[List[str]] = None) -> RuleResult:
+    from .. import strshape as S
     r = RuleResult(rid, "in a typed list every entry is written as '<name> - <type>' on every alternative (no entry may omit its type)",
                    "PDDL typed lists are grouped: an entry without '- type' takes the type of the next typed entry")
     for spec in (sites or TYPED_LIST_SITES):
-        f = repo.func(spec)
+        f = L.fn(repo, spec)
         p = L.prov(repo, f)
-        elems: List[Tuple[ast.AST, ast.AST, Set[str], Set[str]]] = []   # (element expr, anchor, name vars, type-ish marker)
-        for n in ast.walk(f.node):
-            gens = []
-            if isinstance(n, (ast.ListComp, ast.GeneratorExp)):
-                gens = [(n.generators[0], n.elt)]
-            elif isinstance(n, ast.For):
-                for c in L.calls_in(ast.Module(body=n.body, type_ignores=[])):
-                    if isinstance(c.func, ast.Attribute) and c.func.attr == "append" and c.args:
-                        gens.append((n, c.args[0]))
-            for gen, elt in gens:
-                it = p.trace(gen.iter)
-                if any("attr:signature" in x or "attr:grounded_call_objects" in x for x in it):
-                    elems.append((elt, gen))
+        ev = S.Evaluator(repo, f)
         r.site(f.qn)
-        if not elems:
+        entries = []          # repetitions over the signature / the call objects whose body carries literal text
+        for rt in [x for x in L.func_returns(f) if x.value is not None]:
+            try:
+                sh = ev.string(rt.value)
+            except Exception as ex:
+                raise AnalysisError(f"{spec}: the returned text is not interpreted ({ex})")
+            for rep in S.reps(sh):
+                it = _safe(p, rep.loop.iter) if rep.loop.iter is not None else set()
+                if any("attr:signature" in x or "attr:grounded_call_objects" in x for x in it):
+                    entries.append(rep)
+        if not entries:
             raise AnalysisError(f"{spec}: typed-list element template not found")
         bad = []
         judged = 0
-        for elt, gen in elems:
-            if not isinstance(elt, ast.IfExp) and T.flatten_template(elt) is None:
-                continue  # not an entry template (e.g. a list of bare names)
-            if not isinstance(elt, ast.IfExp) and not any(isinstance(x, str) for x in (T.flatten_template(elt) or [])):
-                continue
+        for rep in entries:
+            if not S.literals(rep.body):
+                continue        # a list of bare names, not a typed list
             judged += 1
-            for alt in _alternatives(elt):
-                parts = T.flatten_template(alt)
-                if parts is None:
-                    bad.append(f"{unparse(alt, 50)} (not a template)")
-                    continue
-                parts = T.merge_literals(parts)
-                holes = [x for x in parts if not isinstance(x, str)]
-                lits = [x for x in parts if isinstance(x, str)]
-                if len(holes) < 2 or not any(" - " in l for l in lits):
-                    bad.append(unparse(alt, 50))
+            for alt in S.branches(rep.body):
+                lits, hs = S.literals(alt), S.holes(alt)
+                if len(hs) < 2 or not any(" - " in l for l in lits):
+                    bad.append(S.render(alt, lambda n: unparse(n, 30)))
         if not judged:
             raise AnalysisError(f"{spec}: typed-list entry template not found")
         if bad:
